@@ -1025,6 +1025,91 @@ example : ({ clients := [⟨List.replicate 16 0, 0, true⟩] } : Cfg).clientElig
 example : ({ clients := [⟨List.replicate 16 0, 0, true⟩] } : Cfg).clientEligible
     [0x20, 1, 0xd, 0xb8, 0, 0, 0, 0, 0, 0, 0, 0, 0, 0, 0, 9] = true := by decide
 
+/-! ## configuration corners: networks bit by bit, zone text, where the well-known prefix sits -/
+
+/-- **CIDR membership is "the first `bits` bits agree"** — IPv4 network, IPv4 source. -/
+theorem v4_net_contains_iff (ip v : IP) (bits : Nat) (hip : ip.length = 4) (hv : v.length = 4) :
+    (⟨ip, bits, false⟩ : Net).contains v = true ↔ ∀ j, j < 32 → j < bits → bitOf ip j = bitOf v j := by
+  unfold Net.contains norm4
+  simp only [hip, hv, beq_self_eq_true, if_true, bne_self_eq_false, Bool.false_eq_true, if_false]
+  rw [eqUnder_iff_bits bits ip v 0 (by rw [hip, hv])]
+  simp [hip]
+
+/-- …IPv6 network, IPv6 (non-mapped) source. -/
+theorem v6_net_contains_iff (ip a : IP) (bits : Nat) (hip : ip.length = 16) (ha : a.length = 16)
+    (hmi : isMapped ip = false) (hma : isMapped a = false) :
+    (⟨ip, bits, true⟩ : Net).contains a = true ↔ ∀ j, j < 128 → j < bits → bitOf ip j = bitOf a j := by
+  have e : (⟨ip, bits, true⟩ : Net).contains a = eqUnder bits 0 ip a := by
+    simp [Net.contains, norm4, hip, ha, hmi, hma]
+  rw [e, eqUnder_iff_bits bits ip a 0 (by rw [hip, ha])]
+  simp [hip]
+
+/-- …and the Pref64 containment of `extractIPv4` / `handlePTR` on 16-byte forms. -/
+theorem prefix_contains_iff (ip a : IP) (bits : Nat) (hip : ip.length = 16) (ha : a.length = 16) :
+    prefixContains ⟨ip, bits, true⟩ a = true ↔ ∀ j, j < 128 → j < bits → bitOf ip j = bitOf a j := by
+  have e : prefixContains ⟨ip, bits, true⟩ a = eqUnder bits 0 ip a := by
+    simp [prefixContains, to16, hip, ha]
+  rw [e, eqUnder_iff_bits bits ip a 0 (by rw [hip, ha])]
+  simp [hip]
+
+-- 192.168.0.0/23 contains 192.168.1.255, not 192.168.2.0; 100.64.0.0/10 boundary
+example : (⟨[192, 168, 0, 0], 23, false⟩ : Net).contains [192, 168, 1, 255] = true := by decide
+example : (⟨[192, 168, 0, 0], 23, false⟩ : Net).contains [192, 168, 2, 0] = false := by decide
+example : (⟨[100, 64, 0, 0], 10, false⟩ : Net).contains [100, 127, 255, 255] = true ∧
+    (⟨[100, 64, 0, 0], 10, false⟩ : Net).contains [100, 128, 0, 0] = false := by decide
+
+/-- **The exclusion list is loaded when ANY compiled prefix is the well-known one**, not only the first. -/
+theorem wkp_anywhere_loads_exclusions (ps cs : List Ent) (zs : List Name) (x6 : Option (List Ent))
+    (h : ∃ p ∈ (compile ps cs zs none x6).prefixes, p.wellKnown = true) :
+    (compile ps cs zs none x6).exA = defaultExcludeAv4 := by
+  obtain ⟨p, hp, hw⟩ := h
+  unfold compile at hp ⊢
+  simp only at hp ⊢
+  have hany : (if (ps.filterMap compilePrefix).isEmpty = true then [(⟨⟨wkpIP, 96, true⟩, true⟩ : Prefix)]
+      else ps.filterMap compilePrefix).any (·.wellKnown) = true :=
+    List.any_eq_true.mpr ⟨p, hp, hw⟩
+  simp only [hany, if_true]
+
+/-- `compileConfig` stores a zone written in any letter case, with surrounding
+blanks and with or without the final dot as the lower-case rendered name. -/
+theorem compiled_zone_of_text (t : Name) (z : List (List UInt8)) (hz : z ≠ [])
+    (ht : trimSpace (lower t) = lower (present z) ∨
+      (trimSpace (lower t) ≠ [] ∧ hasSuffix (trimSpace (lower t)) ['.'] = false ∧
+        trimSpace (lower t) ++ ['.'] = lower (present z))) :
+    compileZone t = some (lower (present z)) := by
+  obtain ⟨x, hx⟩ := presentLabels_ends_with_dot z hz
+  have hpz : present z = presentLabels z := by simp [present, hz]
+  have hdot : lower (present z) = lower x ++ ['.'] := by rw [hpz, hx, lower_append]; simp [lower]
+  unfold compileZone
+  simp only
+  rcases ht with ht | ⟨hne, hns, ht⟩
+  · rw [ht, hdot]
+    simp [hasSuffix_append]
+  · have hemp : (trimSpace (lower t)).isEmpty = false := by
+      cases hh : trimSpace (lower t) with
+      | nil => exact absurd hh hne
+      | cons _ _ => rfl
+    simp only [hemp, Bool.false_eq_true, if_false, hns, ht]
+
+/-- end to end: a zone written in any letter case, with or without the final dot
+and with surrounding blanks, excludes its whole subtree for every wire name. -/
+theorem configured_zone_any_case_excludes_subtree (ps cs : List Ent) (zs : List Name) (xa x6 : Option (List Ent))
+    (t : Name) (ht_mem : t ∈ zs) (pre z : List (List UInt8)) (hz : z ≠ [])
+    (ht : trimSpace (lower t) = lower (present z) ∨
+      (trimSpace (lower t) ≠ [] ∧ hasSuffix (trimSpace (lower t)) ['.'] = false ∧
+        trimSpace (lower t) ++ ['.'] = lower (present z))) :
+    (compile ps cs zs xa x6).zoneExcluded (canonical (present (pre ++ z))) = true := by
+  apply excluded_zone_covers_subtree _ pre z hz
+  unfold compile
+  simp only
+  exact List.mem_filterMap.mpr ⟨t, ht_mem, compiled_zone_of_text t z hz ht⟩
+
+example : (compile [] [] [" Example.ORG".toList] none none).zoneExcluded
+    (canonical (present [[87, 87, 87], [69, 120, 97, 109, 112, 108, 101], [79, 82, 71]])) = true := by decide
+
+example : (compile [.v6 [0x20, 1, 0xd, 0xb8, 0, 0x64, 0, 0, 0, 0, 0, 0, 0, 0, 0, 0] 96, .v6 wkpIP 96] [] [] none none).exA
+    = defaultExcludeAv4 := by decide
+
 /-! ## facts regenerated from the tree -/
 
 /-- the code's legal length set is within RFC 6052's six lengths (the model's `embedIPv4` covers exactly these). -/
